@@ -47,6 +47,18 @@ Section Inv.
       repeat (inv_step HC);
       try (inversion HC; subst; reflexivity).
   Qed.
+  (* a configured build is one whose app the builder sees: nearest definition of the app's name *)
+  Theorem configure_build_not_shadowed b le builder binary select disable cli_env info entries :
+    configure_build H EV b le builder binary select disable cli_env = Ok (Built info entries) ->
+    shadowed b builder binary = false.
+  Proof.
+    unfold configure_build. intros HC.
+    destruct (bag_get b builder) as [bctx|] eqn:Eb; [|discriminate].
+    inv_step HC. destruct (negb (allowed_bool a)) eqn:Ea; [discriminate|].
+    destruct (m_context_id binary) as [bin_ctx|] eqn:Ec; cbn [opt_unwrap rbind] in HC; [|discriminate].
+    inv_step HC. destruct a0 as [anc|]; [|discriminate].
+    destruct (shadowed b builder binary); [discriminate|reflexivity].
+  Qed.
 End Inv.
 
 (* ---------- side conditions of the resolver theorems, from the bag ---------- *)
